@@ -7,7 +7,7 @@ From Coq Require Import List Bool Arith NArith Permutation.
 From Coq.Strings Require Import Byte.
 From GI Require Import Lib.Bytes Gen.TsRunConsts Txtar.Txtar
   TsRun.TsFs TsRun.TsRegex TsRun.TsRegexFacts TsRun.TsState TsRun.TsCmds TsRun.TsRun TsRun.TsSpec TsRun.TsRunFacts
-  TsRun.TsUpdate TsRun.TsRerun TsRun.TsRerunFacts TsRun.TsNamesFacts TsRun.TsLineFacts.
+  TsRun.TsUpdate TsRun.TsRerun TsRun.TsRerunFacts TsRun.TsNamesFacts TsRun.TsLineFacts TsRun.TsUnpackFacts.
 Import ListNotations.
 
 (* one line: the interpreter returns normally exactly when the declarative demand is met *)
@@ -235,7 +235,7 @@ Theorem C01_unpack_step : forall st work (u : bool) name data r t1 t2,
   mkdir_all (s_fs st) (dir p) 511 = (t1, true) ->
   (if u then write_file_excl t1 p data 438 else write_file t1 p data 438) = Some t2 ->
   unpack u work ((name, data) :: r) st
-  = unpack u work r (set_fs (set_files st (assoc_set (s_files st) p name)) t2).
+  = unpack u work r (set_fs (set_files st (assoc_set (s_files st) (clean p) name)) t2).
 Proof. exact unpack_step. Qed.
 Print Assumptions C01_unpack_step.
 
@@ -248,7 +248,7 @@ Theorem C01_work_named_entry : forall st work (u : bool) q data r t1 t2,
   mkdir_all (s_fs st) (dir p) 511 = (t1, true) ->
   (if u then write_file_excl t1 p data 438 else write_file t1 p data 438) = Some t2 ->
   exists st', unpack u work ((name, data) :: r) st = unpack u work r st'
-    /\ s_fs st' = t2 /\ assoc_get (s_files st') p = Some name.
+    /\ s_fs st' = t2 /\ assoc_get (s_files st') (clean p) = Some name.
 Proof. exact work_named_entry. Qed.
 Print Assumptions C01_work_named_entry.
 
@@ -262,6 +262,17 @@ Theorem C01_escaping_name_fails_setup : forall cfg work env a pre name data post
   /\ r_fail_lines (run_archive cfg work env a) = [0].
 Proof. exact escaping_name_fails_setup. Qed.
 Print Assumptions C01_escaping_name_fails_setup.
+
+(* ... and for the whole archive: two entries unpacked at the same location, wherever they stand and
+   however they are spelled, fail setup (the tree only grows while setup runs: what was created stays) *)
+Theorem C01_unique_names_whole_archive : forall cfg work env a pre n1 d1 mid n2 d2 post,
+  c_unique cfg = true ->
+  files a = pre ++ (n1, d1) :: mid ++ (n2, d2) :: post ->
+  location work env n1 = location work env n2 ->
+  snd (setup cfg work env a) = false
+  /\ r_verdict (run_archive cfg work env a) = Fail 0 /\ r_fail_lines (run_archive cfg work env a) = [0].
+Proof. exact unique_names_whole_archive. Qed.
+Print Assumptions C01_unique_names_whole_archive.
 
 Theorem C01_setup_failure_is_fail_0 : forall cfg work env a st,
   setup cfg work env a = (st, false) ->
@@ -332,6 +343,12 @@ Theorem C01_cond_go_version : forall cfg st c v,
   go_version c = Some v -> cond_eval cfg st c = CondVal (release_tag_holds (c_go_minor cfg) v).
 Proof. exact cond_go_version. Qed.
 Print Assumptions C01_cond_go_version.
+
+(* for EVERY N >= 1: the guard [go1.N] (N in decimal) holds exactly up to the toolchain's minor version *)
+Theorem C01_cond_go1_every_minor : forall cfg st n,
+  (1 <= n)%N -> cond_eval cfg st (go1_prefix ++ dec n) = CondVal (N.leb n (c_go_minor cfg)).
+Proof. exact cond_go1_every_minor. Qed.
+Print Assumptions C01_cond_go1_every_minor.
 
 Theorem C01_release_tag_spec : forall m major minor,
   release_tag_holds m (major, minor) = true <-> major = 1%N /\ (1 <= minor <= m)%N.
